@@ -144,6 +144,7 @@ class Interp:
         self.unmodelled = collections.Counter()
         self.loop_cut = True
         self.lenient_std = False
+        self.opaque_crates = {"tracing", "tracing_core"}
         import os
         self.trace = bool(os.environ.get("GCV_TRACE"))
 
@@ -1045,6 +1046,10 @@ class Interp:
             res = self.opaque_call(self, st, args, info)
             if res is not NotImplemented:
                 return self._after_prim(st, fr, res, dest, t.get("t"), t.get("u"), floor, outcomes)
+        if f.get("krate") in self.opaque_crates or any(("<" + c + "::") in (f.get("s") or "") or (f.get("s") or "").startswith(c + "::")
+                                                        or (" " + c + "::") in (f.get("s") or "") for c in self.opaque_crates):
+            # logging only (tracing spans / events): no arena state involved
+            return self._after_prim(st, fr, [(st, "ret", TOP)], dest, t.get("t"), t.get("u"), floor, outcomes)
         self.unmodelled[nm] += 1
         has_fn_arg = any(a[0] == "fn" or (a[0] == "adt" and str(a[1]).startswith("closure:")) for a in args)
         external = not f.get("local") and f.get("krate") in ("core", "alloc", "std")
